@@ -208,6 +208,9 @@ func (r Ref) RejectsVariables(text string) (bool, string) {
 // Structure returns the -d dump ("Debugging built structures").
 func (r Ref) Structure(text string) (string, error) {
 	so, se, err := r.run(text, "-d")
+	if err == ErrRefTimeout {
+		return "", err
+	}
 	if err != nil {
 		return "", fmt.Errorf("%v: %s", err, strings.TrimSpace(string(se)))
 	}
@@ -217,6 +220,9 @@ func (r Ref) Structure(text string) (string, error) {
 // Compile returns the binary policy of the text.
 func (r Ref) Compile(text string) ([]byte, error) {
 	so, se, err := r.run(text, "-S", "-O", "no-diff-encode")
+	if err == ErrRefTimeout {
+		return nil, err
+	}
 	if err != nil {
 		return nil, fmt.Errorf("%v: %s", err, strings.TrimSpace(string(se)))
 	}
@@ -676,4 +682,65 @@ func sortedStrings(l []string) []string {
 	r := append([]string{}, l...)
 	sort.Strings(r)
 	return r
+}
+
+// DistinguishPaths is Distinguish restricted to strings that can be kernel
+// path names: no NUL byte and no empty component ("//"). Attachments and file
+// rules are only ever matched against such strings.
+func DistinguishPaths(a, b *DFA, view func(d *DFA, state uint32) string) (witness string, ok bool) {
+	if a == nil || b == nil {
+		return Distinguish(a, b, view)
+	}
+	type key struct {
+		s, t  uint32
+		slash bool
+	}
+	type node struct {
+		k      key
+		parent int
+		c      byte
+	}
+	start := key{dfaStart, dfaStart, false}
+	nodes := []node{{k: start, parent: -1}}
+	seen := map[key]bool{start: true}
+	// one representative per joint class, '/' always on its own
+	reps := []byte{'/'}
+	cls := map[[2]uint32]bool{}
+	for c := 1; c < 256; c++ {
+		if c == '/' {
+			continue
+		}
+		k := [2]uint32{a.EC[c], b.EC[c]}
+		if !cls[k] {
+			cls[k] = true
+			reps = append(reps, byte(c))
+		}
+	}
+	for i := 0; i < len(nodes); i++ {
+		n := nodes[i]
+		if view(a, n.k.s) != view(b, n.k.t) {
+			var rev []byte
+			for j := i; nodes[j].parent >= 0; j = nodes[j].parent {
+				rev = append(rev, nodes[j].c)
+			}
+			for l, r := 0, len(rev)-1; l < r; l, r = l+1, r-1 {
+				rev[l], rev[r] = rev[r], rev[l]
+			}
+			return string(rev), false
+		}
+		for _, c := range reps {
+			if c == '/' && n.k.slash {
+				continue
+			}
+			nk := key{a.next(n.k.s, c), b.next(n.k.t, c), c == '/'}
+			if !seen[nk] {
+				seen[nk] = true
+				nodes = append(nodes, node{k: nk, parent: i, c: c})
+			}
+		}
+		if len(nodes) > 4000000 {
+			return "", true
+		}
+	}
+	return "", true
 }
